@@ -14,7 +14,7 @@ from bctmc.runner import guarded
 from bctmc.tally import Tally
 
 PROPERTY = 'C10'
-RULE = ('every free tree on 8 nodes under the scan orders of bctmc/trees.py (951 labelled trees, 0/1); the structured 7-10 node family of bctmc/named.py (0/1) and all 0/1 digraphs n<=4 and graphs n<=5 for the weighted/binary pairs; all symmetric matrices over {0,1/8,1} on 4 '
+RULE = ('weights of subnormal magnitude (3e-310, 7e-320) on 4-node graphs / 3-node digraphs for the weight-ignoring routines; every free tree on 8 nodes under the scan orders of bctmc/trees.py (951 labelled trees, 0/1); the structured 7-10 node family of bctmc/named.py (0/1) and all 0/1 digraphs n<=4 and graphs n<=5 for the weighted/binary pairs; all symmetric matrices over {0,1/8,1} on 4 '
         'nodes (and the binary graphs) for the directed/undirected pairs; weighted matrices over {0,1/8,1} (sym n=4, dir n=3) and signed {-1,0,1} (sym n=5, weights that cancel) (dir '
         'n=3) vs their binarisation for the weight-ignoring routines (quick also: all 6-node graphs for the distance/betweenness/efficiency pairs; thorough: und n=6 all pairs, sym weighted n=5, dir weighted '
         'n=4); non-trivial = input with unequal degrees and a triangle or an unreachable pair')
@@ -29,6 +29,7 @@ FAMILIES = {
     'bin_dir3': ('d', 3, BIN, 'q'), 'bin_dir4': ('d', 4, BIN, 'q'),
     'bin_und4': ('u', 4, BIN, 'q'), 'bin_und5': ('u', 5, BIN, 'q'),
     'wt_und4': ('u', 4, WT, 'q'), 'wt_dir3': ('d', 3, WT, 'q'),
+    'tiny_und4': ('u', 4, (0, 3e-310, 1), 'q'), 'tiny_dir3': ('d', 3, (0, 7e-320, 0.5), 'q'),   # subnormal weights are connections too
     'sg_und5': ('u', 5, (-1, 0, 1), 'q'), 'sg_dir3': ('d', 3, (-1, 0, 1, 2), 'q'),   # signed: weights can cancel
     'bin_und6_paths': ('u', 6, BIN, 'q'),   # path-based pairs only (quick); everything in thorough
     'bin_und6': ('u', 6, BIN, 't'), 'bin_dir5_paths': ('d', 5, BIN, 't'), 'wt_und5': ('u', 5, WT, 't'), 'wt_dir4': ('d', 4, WT, 't'),
